@@ -81,6 +81,19 @@ Proof.
   - f_equal. unfold transp. destruct (Nat.eqb_spec p qa); [lia|]. destruct (Nat.eqb_spec p qb); [lia|]. reflexivity.
 Qed.
 
+Section CqNorm.
+  Context {K : Type} (o : ops K) {SRK : StarRing o}.
+  Let Rc := cplx_ring o.
+  Add Ring Kcqn : Rc.
+  Lemma cq_norm_one : kmul (cplx o) (k1 (cplx o)) (kmul (cplx o) (k1 (cplx o)) (kconj (cplx o) (k1 (cplx o)))) = k1 (cplx o).
+  Proof. rewrite (sr_conj_1 (o:=cplx o)). ring. Qed.
+  Lemma cq_norm_step (K0 a w0 c : K * K) :
+    kmul (cplx o) (kmul (cplx o) (kmul (cplx o) K0 a) (kconj (cplx o) (kmul (cplx o) K0 a))) (kmul (cplx o) w0 c) =
+    kmul (cplx o) (kmul (cplx o) (kmul (cplx o) K0 (kconj (cplx o) K0)) w0)
+                  (kmul (cplx o) c (kmul (cplx o) a (kconj (cplx o) a))).
+  Proof. rewrite (sr_conj_mul (o:=cplx o)). ring. Qed.
+End CqNorm.
+
 Section Conv.
   Context {K : Type} (o : ops K) {SRK : StarRing o} {ZMK : ZMorph o}.
   Notation T := (K * K)%type.
@@ -427,5 +440,33 @@ Section Conv.
     destruct (run_emitted_acts nq ops _ _ _ Hok A0) as (c & Ec & Ac).
     exists c. split; [exact Ec|]. apply acts_iff. unfold Vsrc.
     rewrite <- (sem_emitted_denotes_source cq m1 false gs ops rules (s_id cq nq) Hd Hc). exact Ac.
+  Qed.
+
+  (* ---- |K|^2 is a unit: 16^(number of heralded two-qubit gates) * K * conj K = 1 ---- *)
+  Definition op_w (op : eop) : T :=
+    match op with ECZ true _ | ECX true _ _ => kofZ cq 16 | _ => k1 cq end.
+  Definition wprod (ops : list eop) (w0 : T) : T := fold_left (fun a op => kmul cq a (op_w op)) ops w0.
+
+  Hypothesis Ncz : kmul cq (kofZ cq 16) (kmul cq kcz (kconj cq kcz)) = k1 cq.
+  Hypothesis Ncx0 : kmul cq (kofZ cq 16) (kmul cq kcx0 (kconj cq kcx0)) = k1 cq.
+  Hypothesis Ncx1 : kmul cq (kofZ cq 16) (kmul cq kcx1 (kconj cq kcx1)) = k1 cq.
+
+  Lemma op_k_norm op : kmul cq (op_w op) (kmul cq (op_k op) (kconj cq (op_k op))) = k1 cq.
+  Proof.
+    pose proof (cq_norm_one o) as E1.
+    destruct op as [g i m|r a0 a1 b0 b1|[|] m|[|] [|t] m|m|t m]; cbn [op_w op_k]; assumption.
+  Qed.
+
+  Theorem kprod_unit ops : forall K0 w0 : T,
+    kmul cq (kmul cq K0 (kconj cq K0)) w0 = k1 cq ->
+    kmul cq (kmul cq (kprod ops K0) (kconj cq (kprod ops K0))) (wprod ops w0) = k1 cq.
+  Proof.
+    induction ops as [|op ops IH]; intros K0 w0 H; [exact H|].
+    unfold kprod, wprod in *. cbn [fold_left]. apply IH.
+    pose proof (op_k_norm op) as N.
+    transitivity (kmul cq (kmul cq (kmul cq K0 (kconj cq K0)) w0)
+                          (kmul cq (op_w op) (kmul cq (op_k op) (kconj cq (op_k op))))).
+    - exact (cq_norm_step o K0 (op_k op) w0 (op_w op)).
+    - rewrite H, N. apply (cq_mul_1_l o).
   Qed.
 End Conv.
